@@ -69,6 +69,31 @@ type Not struct {
 	Not string `"!" @~";"`
 }
 
+// Sig is a user-implemented member of the union: an optional "!" and a number. Like much hand-written
+// code it notes the sign on its receiver before it knows whether a number follows (the receiver of a
+// NextMatch belongs to nobody afterwards).
+type Sig struct {
+	Neg    bool
+	Digits string
+}
+
+func (s *Sig) Parse(lex *lexer.PeekingLexer) error {
+	ahead := *lex
+	t := ahead.Next()
+	if t.Value == "!" {
+		s.Neg = true
+		t = ahead.Next()
+	}
+	if len(t.Value) == 0 || t.Value[0] != '#' { // Int tokens arrive mapped as "#<digits>%"
+		return participle.NextMatch
+	}
+	s.Digits += t.Value
+	*lex = ahead
+	return nil
+}
+
+func (Sig) val() {}
+
 func (Pair) val() {}
 func (Num) val()  {}
 func (Here) val() {}
@@ -125,7 +150,7 @@ func NewDef() *lexer.StatefulDefinition { return lexer.MustStateful(HeredocRules
 func NewParser() *participle.Parser[Doc] {
 	return participle.MustBuild[Doc](
 		participle.Lexer(NewDef()),
-		participle.Union[Val](Pair{}, Num{}, Here{}, Word{}, Not{}),
+		participle.Union[Val](Pair{}, &Sig{}, Num{}, Here{}, Word{}, Not{}),
 		participle.Elide("Space"),
 		participle.UseLookahead(2),
 		participle.Upper("Ident"),
@@ -291,6 +316,15 @@ func HistoryCalls() []Call {
 		}},
 		parseFileCall("Not1", "one.conf", InNot1), parseFileCall("Not2", "two.conf", InNot2),
 		readerCall("A", InA, nil), readerCall("broken", "zz = 1; yy = ", errReader),
+		{Name: "Build a second parser on this parser's Lexer() with more mappers, use it", F: func(s any) string {
+			p := s.(*participle.Parser[Doc])
+			q, err := participle.Build[KW](participle.Lexer(p.Lexer()), participle.Elide("Space"), participle.Upper("Ident"),
+				participle.Map(func(t lexer.Token) (lexer.Token, error) { t.Value = "<" + t.Value + ">"; return t, nil }, "Ident", "Int"))
+			if err != nil {
+				return "BUILD ERR " + err.Error()
+			}
+			return render(q.ParseString("f", "let x"))
+		}},
 		{Name: "ParseBytes(empty)", F: func(s any) string { return render(s.(*participle.Parser[Doc]).ParseBytes("", nil)) }},
 		{Name: "ParseString(trailing garbage)", F: func(s any) string { return render(s.(*participle.Parser[Doc]).ParseString("f", "a = 1; ; ;")) }},
 		{Name: "ParseString(trailing garbage, AllowTrailing)", F: func(s any) string {
